@@ -175,8 +175,17 @@ pub fn mamba_to_python(
     let asts: Vec<AST> = asts.into_iter().map(Result::unwrap).collect();
     trace!("Parsed {} files", asts.len());
 
-    let ctx = Context::try_from(asts.as_ref())
-        .map_err(|errs| errs.iter().map(|e| format!("{e}")).collect::<Vec<String>>())?;
+    let ctx = Context::try_from(asts.as_ref()).map_err(|errs| {
+        // Definitions are gathered file by file: the errors belong to the first file which fails on its own
+        let (src, path) = asts
+            .iter()
+            .zip(&source)
+            .find(|(ast, _)| Context::try_from(std::slice::from_ref(*ast)).is_err())
+            .map_or((None, None), |(_, (src, path))| (Some(src.clone()), path.clone()));
+        errs.iter()
+            .map(|e| format!("{}", e.clone().with_source(&src, &path)))
+            .collect::<Vec<String>>()
+    })?;
     let (typed_ast, type_errs): (Vec<_>, Vec<_>) = asts
         .iter()
         .zip(&source)
